@@ -46,6 +46,17 @@ func genPyramid(repo string) {
 		strings.Contains(sb, "ifoctants[0]==nil||len(octants[0].Labels)!=1{returnfalse}") &&
 			strings.Contains(sb, "ifoctants[i]==nil||len(octants[i].Labels)!=1||lbl!=octants[i].Labels[0]{returnfalse}") &&
 			strings.Count(sb, "MakeSolidBlock") == 1, sb != "")
+	idle := ""
+	if fd := lm.funcDecl("Data", "AnyScaleUpdating"); fd != nil {
+		idle = squash(lineComment.ReplaceAllString(lm.src(fd), ""))
+	}
+	nm := ""
+	if fd := dr.funcDecl("", "NewMutation"); fd != nil {
+		nm = squash(dr.src(fd))
+	}
+	emit("downresIdleLooksAtComputedScales", "the scales a mutation marks as updating (1..MaxDownresLevel) are the scales AnyScaleUpdating looks at",
+		strings.Contains(nm, "forscale:=uint8(1);scale<=d.GetMaxDownresLevel();scale++{d.StartScaleUpdate(scale)}") &&
+			strings.Contains(idle, "forscale:=uint8(1);scale<=d.MaxDownresLevel;scale++{ifd.updates[scale]>0{"), idle != "" && nm != "")
 	emit("downresKeepsUntouchedOctants", "when fewer than eight octants changed the stored lower-resolution block is loaded and only the changed octants are recomputed",
 		strings.Contains(oc, "ifnumBlocks<8{") && strings.Contains(oc, "loresBlock,err=d.getSupervoxelBlock(v,chunkPt,hiresScale+1)") && strings.Contains(oc, "loresBlock.Downres(msg.octant)"), oc != "")
 }
